@@ -115,6 +115,13 @@ func steps() []step {
 	node("b-purpose99-hash99-id99", func() *sbom.Node {
 		return &sbom.Node{Id: "b", PrimaryPurpose: []sbom.Purpose{99}, Hashes: map[int32]string{99: "h", 0: "z"}, Identifiers: map[int32]string{99: "i"}, ExternalReferences: []*sbom.ExternalReference{{Type: 999, Url: "u", Hashes: map[int32]string{77: "x"}}}}
 	})
+	// negative numbers wherever an enum or an enum-keyed map sits (any int32 is a legal value on the wire)
+	node("b-negative-numbers", func() *sbom.Node {
+		return &sbom.Node{Id: "b", Type: -1, PrimaryPurpose: []sbom.Purpose{-1, -2147483648}, Hashes: map[int32]string{-1: "h", -2147483648: "m"}, Identifiers: map[int32]string{-1: "i", -2147483648: "j"}, ExternalReferences: []*sbom.ExternalReference{{Type: -1, Url: "u", Hashes: map[int32]string{-1: "x"}}}}
+	})
+	node("a-negative-identifier-package", func() *sbom.Node {
+		return &sbom.Node{Id: "a", Name: "na", Identifiers: map[int32]string{-1: "i", 1: "pkg:generic/a@1"}, Hashes: map[int32]string{-7: "h", 3: "aa"}}
+	})
 	node("b-empty-person", func() *sbom.Node {
 		return &sbom.Node{Id: "b", Suppliers: []*sbom.Person{{}}, Originators: []*sbom.Person{{Contacts: []*sbom.Person{{}}}}, ExternalReferences: []*sbom.ExternalReference{{}}}
 	})
@@ -130,6 +137,10 @@ func steps() []step {
 	}
 	add("edge:a-other->[b]", func(d *sbom.Document) {
 		nl(d).Edges = append(nl(d).Edges, &sbom.Edge{From: "a", Type: sbom.Edge_other, To: []string{"b"}})
+	})
+	add("edge:a-(-1)->[b]", func(d *sbom.Document) { nl(d).Edges = append(nl(d).Edges, &sbom.Edge{From: "a", Type: -1, To: []string{"b"}}) })
+	add("doctype:-1", func(d *sbom.Document) {
+		md(d).DocumentTypes = append(md(d).DocumentTypes, &sbom.DocumentType{Type: sbom.DocumentType_SBOMType(-1).Enum()})
 	})
 	add("edge:a-999->[b]", func(d *sbom.Document) {
 		nl(d).Edges = append(nl(d).Edges, &sbom.Edge{From: "a", Type: 999, To: []string{"b"}})
